@@ -892,6 +892,8 @@ def container_shape(repo):
     and the shallow-copy hooks (F72: `copy.copy` is `copy()`)"""
     lmod, dmod = _parse(repo, os.path.join("fields", "list_field.py")), _parse(repo, os.path.join("fields", "dict_field.py"))
     out = {}
+    cmod = _parse(repo, "core.py")
+    out["Config._render_nested"] = _skeleton(_method(_class(cmod, "Config"), "_render_nested"), (), full=True)
     for mod, cls, meth in ((lmod, "ListField", "validate"), (dmod, "DictField", "validate"), (lmod, "ListProxy", "__setitem__"), (lmod, "ListProxy", "__copy__"),
                            (dmod, "DictProxy", "__copy__"), (lmod, "ListProxy", "copy"), (dmod, "DictProxy", "copy")):
         out["%s.%s" % (cls, meth)] = _skeleton(_method(_class(mod, cls), meth), (), full=True)
